@@ -271,6 +271,10 @@ type RtmpOrigin struct {
 	Msgs    []ref.Msg
 	DecErr  error
 	raw     []byte
+	// RTSP server role (chosen when the client's first byte is a letter): answers OPTIONS, DESCRIBE
+	// (an AAC-only description), SETUP (interleaved) and PLAY
+	Rtsp    bool
+	rtspRaw []byte
 }
 
 // Pump consumes what lal wrote and answers; reports whether it fed anything to lal.
@@ -281,6 +285,13 @@ func (o *RtmpOrigin) Pump() bool {
 	}
 	fed := false
 	o.raw = append(o.raw, b...)
+	if !o.Rtsp && !o.hsSent && len(o.raw) > 0 && o.raw[0] >= 'A' && o.raw[0] <= 'Z' {
+		o.Rtsp = true // the client speaks RTSP (an RTMP client starts with the version byte 3)
+		o.rtspRaw = append(o.rtspRaw, o.raw[:len(o.raw)-len(b)]...)
+	}
+	if o.Rtsp {
+		return o.pumpRtsp(b)
+	}
 	if !o.hsSent && len(o.raw) >= 1+1536 {
 		s := make([]byte, 1+1536+1536)
 		s[0] = 3
@@ -354,6 +365,54 @@ func (o *RtmpOrigin) Pump() bool {
 				fed = true
 			}
 		}
+	}
+	return fed
+}
+
+const rtspOriginSdp = "v=0\r\no=- 0 0 IN IP4 127.0.0.1\r\ns=x\r\nc=IN IP4 127.0.0.1\r\nt=0 0\r\nm=audio 0 RTP/AVP 97\r\na=rtpmap:97 MPEG4-GENERIC/44100/2\r\na=fmtp:97 profile-level-id=1;mode=AAC-hbr;sizelength=13;indexlength=3;indexdeltalength=3; config=1210\r\na=control:streamid=0\r\n"
+
+func (o *RtmpOrigin) pumpRtsp(b []byte) bool {
+	o.rtspRaw = append(o.rtspRaw, b...)
+	items, rest, err := ref.ParseRtspStream(o.rtspRaw)
+	if err != nil {
+		o.DecErr = err
+		return false
+	}
+	o.rtspRaw = append([]byte{}, o.rtspRaw[len(o.rtspRaw)-rest:]...)
+	fed := false
+	for _, it := range items {
+		if !it.IsMsg || it.Status != 0 {
+			continue
+		}
+		f := strings.Fields(it.StartLine)
+		if len(f) < 2 {
+			continue
+		}
+		o.Cmds = append(o.Cmds, f[0])
+		if !o.Auto || o.HoldAt == f[0] {
+			continue
+		}
+		cseq := it.Headers["cseq"]
+		hdr := "RTSP/1.0 200 OK\r\nCSeq: " + cseq + "\r\n"
+		body := ""
+		switch f[0] {
+		case "OPTIONS":
+			hdr += "Public: OPTIONS, DESCRIBE, SETUP, PLAY, TEARDOWN\r\n"
+		case "DESCRIBE":
+			o.Stream = f[1]
+			body = rtspOriginSdp
+			hdr += "Content-Type: application/sdp\r\nContent-Base: " + f[1] + "/\r\n" + fmt.Sprintf("Content-Length: %d\r\n", len(body))
+		case "SETUP":
+			hdr += "Transport: RTP/AVP/TCP;unicast;interleaved=0-1\r\nSession: 12345678\r\n"
+		case "PLAY":
+			hdr += "Session: 12345678\r\n"
+			o.Role = "play"
+			o.Started = true
+		default:
+			hdr += "Session: 12345678\r\n"
+		}
+		o.Conn.Feed([]byte(hdr + "\r\n" + body))
+		fed = true
 	}
 	return fed
 }
